@@ -61,3 +61,59 @@ def random_tier(work, rep, hbin, rich, n):
     if lines:
         rep.sample({"random_schema": lines[len(lines) // 2]["text"], "doc": lines[len(lines) // 2]["doctext"], "ok": lines[len(lines) // 2].get("ok")})
     return bad
+
+
+def _schema_class(schema, env):
+    """C03 if the schema composes types (references, or, allOf, additionalProperties, key shortcuts), C02 if it has scalar rules, else C01."""
+    txt = json.dumps([schema, env])
+    if any(k in txt for k in ('"t": "ref"', '"t": "tref"', '"n": "or"', '"n": "allOf"', '"n": "additionalProperties"', '"sc": true')):
+        return "C03"
+    shape_only = {"optional", "nullable"}
+    names = set()
+
+    def walk(n):
+        if isinstance(n, dict):
+            if "rules" in n and isinstance(n["rules"], list):
+                for r in n["rules"]:
+                    if isinstance(r, dict) and "n" in r:
+                        if r["n"] == "type" and isinstance(r.get("v"), dict) and r["v"].get("s") == "any":
+                            continue
+                        names.add(r["n"])
+            for v in n.values():
+                walk(v)
+        elif isinstance(n, list):
+            for v in n:
+                walk(v)
+    walk(schema)
+    return "C01" if names <= shape_only else "C02"
+
+
+def diff_tier(work, rep, hbin, prop, n):
+    """Differential amplification: the frozen copy (harness/ref) and the current tree on n random schemas x documents at Go speed; the calls on
+    which they differ are judged by TLC (TraceSem). Only the differences that fall into this property's fragment are reported by it."""
+    tr = work.path("diff.ndjson")
+    p = vlib.run_harness(hbin, ["diffsem", "-n", str(n), "-out", tr], timeout=6000)
+    if p.returncode != 0:
+        raise vlib.Infra("diffsem failed: " + p.stderr.decode()[-2000:])
+    s = summary_of(p.stderr)
+    rep.notes["differential"] = {k: s[k] for k in ("schemas", "calls", "validate_differences", "check_differences", "example_differences")}
+    rep.cov["evaluations"] += s["calls"]
+    lines = list(vlib.read_ndjson(tr))
+    bad = []
+    if not lines:
+        return bad
+    r = vlib.tlc(work, "TraceSem", "TraceSem.cfg", consts={"TraceFile": '"%s"' % tr}, timeout=12000, heap="24g")
+    rep.add_tlc(r, "TraceSem over %d calls on which the frozen copy and the current tree differ" % len(lines))
+    if r.distinct != len(lines) + 1:
+        raise vlib.Infra("trace not consumed: %d states for %d events" % (r.distinct, len(lines)))
+    for l in r.tagged("@@MISMATCH"):
+        m = json.loads(l)
+        e = lines[m["line"] - 1]
+        cls = _schema_class(e["schema"], e["env"])
+        if e["op"] == "example":
+            cls = "C15"
+        if cls != prop:
+            continue
+        bad.append({"schema": e["text"], "doc": e.get("doctext", e.get("out")), "want": m["what"], "got": {"ok": e.get("ok"), "code": e.get("code")}, "abstract": e["schema"], "env": e["env"],
+                    "opt": e["opt"], "what": "differs from the frozen copy and from the requirement"})
+    return bad
